@@ -113,7 +113,7 @@ fn mono_case(frames: usize, pf: u8, spf: usize, extra: usize, n: usize) {
 // @tier quick
 // @timeout 1200
 // @fn Player::new; Player::play (mono path, S = f64); Player::update_ay; Vtx::frame_registers
-// @sym all register bytes of up to 3 frames; structure from literal cases (frames, player frequency, samples/frame, rate remainder, request length): (1,50,1,0,3) (2,1,3,0,10) (3,50,3,49,10) (3,2,2,1,5) (2,50,2,7,4) (3,1,1,0,2)
+// @sym all register bytes of up to 3 frames; structure from literal cases (frames, player frequency, samples/frame, rate remainder, request length): (1,50,1,0,3) (2,1,3,0,10) (3,50,3,49,10) (3,2,2,1,5) (2,50,2,7,4) (3,1,1,0,2) (2,3,2,0,5) (2,60,1,0,3) (1,60,3,59,4)
 // @assert mono playback: frame k's fourteen register values are written exactly at output sample k*floor(rate/player_frequency), registers 0..13 in order, R13 skipped iff its value is 0xFF, nothing else is written; total samples produced is frames*spf, after which play() returns 0 and keeps returning 0; sample i of the stream is the chip's i-th sample; the rest of the buffer is untouched
 // @bound <= 3 frames x <= 3 samples per frame, request <= 10 samples (unwind 16); structure enumerated, register data symbolic
 #[kani::proof]
@@ -125,6 +125,10 @@ fn c20_mono_schedule() {
     mono_case(3, 2, 2, 1, 5);
     mono_case(2, 50, 2, 7, 4);
     mono_case(3, 1, 1, 0, 2);
+    // player frequencies that do not divide a second evenly (60 Hz NTSC-style tracks, 3 Hz)
+    mono_case(2, 3, 2, 0, 5);
+    mono_case(2, 60, 1, 0, 3);
+    mono_case(1, 60, 3, 59, 4);
 }
 
 fn chunk_case(frames: usize, pf: u8, spf: usize, stereo: bool, n: usize, a: usize) {
